@@ -38,6 +38,8 @@ func c09Menu(w *mintops.W) []string {
 	for _, k := range ks {
 		i := byKS[k]
 		ops = append(ops, fmt.Sprintf("swap|%d|exact", i), fmt.Sprintf("swap|%d|plus1", i), fmt.Sprintf("swap|%d|inactive", i), fmt.Sprintf("swap|%d|unknown", i))
+		// the proof's keyset id spelled differently (upper case): not a keyset of this mint, and no fee is known for it
+		ops = append(ops, fmt.Sprintf("swap|%du|exact", i))
 	}
 	if len(ks) >= 2 {
 		a, b := byKS[ks[0]], byKS[ks[len(ks)-1]]
